@@ -27,9 +27,6 @@ structure Params (No Nk hB hO hR hK outSize kerSize bmLeafCount bmSize : Nat) : 
   bmc : bmLeafCount = Dsg.expectedChunks No
   bms : bmSize = mmr (Dsg.expectedChunks No)
 
-def St.Par (s : St) (No Nk : Nat) : Prop :=
-  Params No Nk s.hB s.hO s.hR s.hK s.outSize s.kerSize s.bmLeafCount s.bmSize
-
 theorem chunks_pos (No : Nat) (h : 1 ≤ No) : 1 ≤ Dsg.expectedChunks No := by
   unfold Dsg.expectedChunks; omega
 
@@ -38,7 +35,9 @@ theorem chunks_small (No : Nat) (h : No < 2 ^ 62) : Dsg.expectedChunks No < 2 ^ 
 
 /-- the invariant of every reachable state -/
 structure Inv (No Nk : Nat) (s : St) : Prop where
-  par : s.Par No Nk
+  /-- (spelled out field by field: the kernel compares the arguments one by one, and never has to
+  compare two states) -/
+  par : Params No Nk s.hB s.hO s.hR s.hK s.outSize s.kerSize s.bmLeafCount s.bmSize
   bm : TreeOk false s.hB (Dsg.expectedChunks No) s.bm
   /-- no cached bitmap segment carries redundant chunks (assumption on the deliveries, see
   `redundant_bitmap_chunk_stalls` for what happens otherwise) -/
@@ -256,6 +255,18 @@ theorem tX (No Nk : Nat) (s : St) (hi : Inv No Nk s) : Inv No Nk s.applyNextSegm
   | some k => sorry
   | none =>
     simp only [St.applyNextWith]
+    have ebm := pb.eq_of_none
+    obtain ⟨oo, po⟩ := out.pos'
+    obtain ⟨orr, pr⟩ := rp.pos'
+    obtain ⟨ok', pk⟩ := ker.pos'
+    have hso : s.outSize = mmr No := par.out
+    have hsk : s.kerSize = mmr Nk := par.ker
+    have ka := applyTree_ok true true s.hO No (s.nextRequired .output) s.out out
+      (reach_of_pos po (fun _ => par.hO1) _ (fun k hk => by subst hk; exact no k po))
+    have kb := applyTree_ok true true s.hR No (s.nextRequired .rangeproof) s.rp rp
+      (reach_of_pos pr (fun _ => par.hR1) _ (fun k hk => by subst hk; exact nr k pr))
+    have kc := applyTree_ok false true s.hK Nk (s.nextRequired .kernel) s.ker ker
+      (reach_of_pos pk (fun _ => par.hK1) _ (fun k hk => by subst hk; exact nk _ pk))
     sorry
 
 end GV.Deseg
